@@ -48,7 +48,30 @@ type tickFSReader struct {
 	tick func(string)
 }
 
-func (t *tickFSReader) Next() (*desync.File, error) { t.tick("fs.next"); return t.fs.Next() }
+func (t *tickFSReader) Next() (*desync.File, error) {
+	t.tick("fs.next")
+	f, err := t.fs.Next()
+	if err == nil && f != nil && f.Data != nil {
+		f.Data = &tickData{rc: f.Data, tick: t.tick}
+	}
+	return f, err
+}
+
+// tickData hands out a file's content in small pieces; every Read is a scheduling point ("fd.read"), so a
+// cancellation can arrive in the middle of a payload -- also of the last entry of the walk.
+type tickData struct {
+	rc   io.ReadCloser
+	tick func(string)
+}
+
+func (d *tickData) Read(p []byte) (int, error) {
+	d.tick("fd.read")
+	if len(p) > 97 {
+		p = p[:97]
+	}
+	return d.rc.Read(p)
+}
+func (d *tickData) Close() error { return d.rc.Close() }
 
 type tickWriter struct {
 	w    io.Writer
@@ -208,6 +231,10 @@ func c07MakeArchiveN(work string, rng *vh.Rand, maxFile int) ([]byte, error) {
 	if err := os.Symlink("f0", filepath.Join(root, "link")); err != nil {
 		return nil, err
 	}
+	// a regular file that is the very last entry of the walk (names are visited in sorted order)
+	if err := os.WriteFile(filepath.Join(root, "zlast"), rng.Bytes(150+rng.Intn(maxFile)), 0644); err != nil {
+		return nil, err
+	}
 	var buf bytes.Buffer
 	if err := desync.Tar(context.Background(), &buf, desync.NewLocalFS(root, c07FSOpt)); err != nil {
 		return nil, err
@@ -302,6 +329,19 @@ func c07Trees(a vh.Args, o *vh.Oracle, r *vh.Result, rng *vh.Rand) error {
 					c := c07Case{Op: op, Variant: "ok", N: n, K: k, BlobHex: vh.Hex(archive), Sizes: sizes, Level: "library"}
 					if err := c07Check(a, o, r, &c, -1); err != nil {
 						return err
+					}
+				}
+				if op == "tar" {
+					// inside the payloads: the reads of the last entries of the walk (incl. the very last file)
+					fb := c07Case{Op: op, Variant: "ok", N: n, K: -1, Sites: []string{"fd.read"}, BlobHex: vh.Hex(archive), Sizes: sizes, Level: "library"}
+					if err := c07Exec(a, &fb); err != nil {
+						return err
+					}
+					for back := 0; back < 8 && back < fb.Hits; back++ {
+						c := c07Case{Op: op, Variant: "ok", N: n, K: fb.Hits - back, Sites: []string{"fd.read"}, BlobHex: vh.Hex(archive), Sizes: sizes, Level: "library"}
+						if err := c07Check(a, o, r, &c, -1); err != nil {
+							return err
+						}
 					}
 				}
 				if op == "untarindex" {
